@@ -302,9 +302,8 @@ def circleSegment (k : Consts K) (theta r : K) (center normal xaxis : List K)
   if |theta| > 2 * k.pi then throw .value
   if r ≤ 0 then throw .value
   if theta = 2 * k.pi then
-    -- `return circle(r, center, normal)`: the x-axis argument is dropped by the code
-    -- (so here `lam` must be the one belonging to the default x-axis `(1,0,0)`)
-    circle k r center normal "p2C0" [1, 0, 0] a lam
+    -- `return circle(r, center, normal, xaxis=xaxis)`
+    circle k r center normal "p2C0" xaxis a lam
   else
     if arc.spans = 0 then throw .zeroDiv
     let cps := arcNet r arc.cd arc.sd arc.spans
@@ -383,19 +382,16 @@ def threePointData (tol : K) (x0 x1 x2 : List K) : PyM (ThreePt K) := do
 
 /-- `circle_segment_from_three_points(x0, x1, x2)`.
 
-    `radius` is the supplied `‖x2 − centre‖`; `thetaS/arcS` belong to `θ = arccos(v2·v0/|v2||v0|)`
-    and `thetaL/arcL` to `2π − θ`; the model selects by the code's own sign test.
-    `followCode = false` (the PROPERTY): the arc is placed about the travel normal `w2 = (x0−x2)×(x1−x2)`
-    (placement data `aW`, `lamW`).  `followCode = true`: about `v0 × v1` as the pinned code does
-    (placement data `aC`, `lamC`). -/
+    `radius` is the supplied `‖x2 − centre‖`; `thetaS/arcS` belong to
+    `θ = arccos(clip(v2·v0/|v2||v0|, −1, 1))` and `thetaL/arcL` to `2π − θ`; the model selects by
+    the code's own sign test.  The arc is placed about the travel normal
+    `w2 = (x0−x2)×(x1−x2)` with x-axis `v0 = x0 − centre` (placement data `aW`, `lamW`). -/
 def threePoints (k : Consts K) (tol : K) (x0 x1 x2 : List K) (radius : K)
     (thetaS : K) (arcS : ArcAux K) (thetaL : K) (arcL : ArcAux K)
-    (followCode : Bool) (aW : NAux K) (lamW : K) (aC : NAux K) (lamC : K) : PyM (Obj K) := do
+    (aW : NAux K) (lamW : K) : PyM (Obj K) := do
   let d ← threePointData tol x0 x1 x2
   let (theta, arc) := if d.keep then (thetaS, arcS) else (thetaL, arcL)
-  let res ← if followCode then
-      circleSegment k theta radius d.center (cross3 d.v0 d.v1) d.v0 arc aC lamC
-    else circleSegment k theta radius d.center d.w2 d.v0 arc aW lamW
+  let res ← circleSegment k theta radius d.center d.w2 d.v0 arc aW lamW
   pure (res.setDimension (max x0.length (max x1.length x2.length)))
 
 /-! ## Surfaces and volumes -/
